@@ -336,13 +336,18 @@ func Render(w *Work) string {
 
 const tokenZoo = "lx = [\"caf\\u00e9 \\U0001F600 \\x41\\101 \u00e9\\t\\\"q\\\" \\\\\", `raw\\n`, 'x\\ty', 0x1F, 1e9, 1.5e-3, 0b101, \"\u65e5\u672c\u8a9e\"] # c\nly = /* c */ 1 // c\nlz = lx[0] + lx[1] ?? ly"
 
-var faultKinds = []string{"panic-string", "panic-error", "panic-value", "runtime-error", "error-result", "nil-func", "close-chan", "cancel", "panic-typed-nil-error", "panic-nil"}
+var faultKinds = []string{"panic-string", "panic-error", "panic-value", "runtime-error", "error-result", "nil-func", "close-chan", "cancel", "panic-typed-nil-error", "panic-nil", "panic-unhashable-error", "panic-unhashable-value"}
 
 // nilErr is an error type whose Error method dereferences the receiver: a
 // typed nil of it is a non-nil error value whose Error() panics.
 type nilErr struct{ msg string }
 
 func (e *nilErr) Error() string { return e.msg }
+
+// errList is an error of slice kind, like go/scanner.ErrorList: not hashable, not comparable.
+type errList []string
+
+func (e errList) Error() string { return strings.Join(e, "; ") }
 
 type Prop struct{}
 
@@ -476,6 +481,11 @@ func (Prop) Run(t *testing.T, c *harness.Case, verbose bool) *harness.Result {
 				panic(err)
 			case "panic-nil":
 				panic(nil)
+			case "panic-unhashable-error":
+				// an error whose dynamic type cannot be a map key or be compared (a list of messages)
+				panic(errList{"first" + strconv.Itoa(n), "second"})
+			case "panic-unhashable-value":
+				panic(map[string]int{"boom": n})
 			}
 			return k
 		}
@@ -660,7 +670,7 @@ func (Prop) Shrink(c *harness.Case) []*harness.Case {
 			evs[i].Arg = ev.Arg - 1
 			emit(w, evs)
 		}
-		if ev.Kind != "panic-string" && ev.Kind != "nil-func" && ev.Kind != "close-chan" && ev.Kind != "panic-typed-nil-error" {
+		if ev.Kind != "panic-string" && ev.Kind != "nil-func" && ev.Kind != "close-chan" && ev.Kind != "panic-typed-nil-error" && !strings.HasPrefix(ev.Kind, "panic-unhashable") {
 			evs := append([]harness.EventSpec{}, c.Events...)
 			evs[i].Kind = "panic-string"
 			emit(w, evs)
